@@ -112,6 +112,7 @@ func TestC10(t *testing.T) {
 		}
 		c.LibSA = rapid.Bool().Draw(t, "libSA")
 		beginCase("C10", "", func() any { return c })
+		defer endCase() // also when rapid abandons the case half-way (fuzzing: input used up)
 		msg, bad, nt := checkSegCase(c)
 		endCase()
 		if bad {
